@@ -40,6 +40,15 @@ func main() {
 		// instrument funcentry <dir> <yieldfunc> : every function of every file in <dir> that mentions a
 		// swapped sync.Map variable gets a scheduling point as its first statement
 		err = yieldAtFuncEntry(os.Args[2], os.Args[3])
+	case "atomicsfn":
+		// instrument atomicsfn <local yield function> <label> <file>... : like atomics, but the inserted call is to a
+		// function of the file's own package (used for the scratch copy of the protobuf-go runtime)
+		for _, f := range os.Args[4:] {
+			if e := yieldBeforeAtomicsWith(f, os.Args[2], os.Args[3]); e != nil {
+				err = e
+				break
+			}
+		}
 	case "atomics":
 		for _, f := range os.Args[3-1:] {
 			if e := yieldBeforeAtomics(f); e != nil {
@@ -315,7 +324,11 @@ func yieldAtFuncEntry(dir, yieldFn string) error {
 }
 
 // yieldBeforeAtomics inserts csproto.VerifYield("gen.atomic") before statements calling sync/atomic.
-func yieldBeforeAtomics(path string) error {
+func yieldBeforeAtomics(path string) error { return yieldBeforeAtomicsWith(path, "", "gen.atomic") }
+
+// yieldBeforeAtomicsWith inserts <fn>(<label>) - or csproto.VerifYield(<label>) if fn is empty - before every
+// statement that calls a sync/atomic function.
+func yieldBeforeAtomicsWith(path, fn, label string) error {
 	fset := token.NewFileSet()
 	f, err := parser.ParseFile(fset, path, nil, parser.ParseComments)
 	if err != nil {
@@ -323,7 +336,7 @@ func yieldBeforeAtomics(path string) error {
 	}
 	at := importName(f, "sync/atomic")
 	cs := importName(f, "github.com/CrowdStrike/csproto")
-	if at == "" || cs == "" {
+	if at == "" || (cs == "" && fn == "") {
 		return nil
 	}
 	isAtomicCall := func(n ast.Node) bool {
@@ -363,9 +376,13 @@ func yieldBeforeAtomics(path string) error {
 	count := 0
 	mk := func(pos token.Pos) ast.Stmt {
 		count++
+		var fun ast.Expr = &ast.SelectorExpr{X: &ast.Ident{Name: cs, NamePos: pos}, Sel: &ast.Ident{Name: "VerifYield"}}
+		if fn != "" {
+			fun = &ast.Ident{Name: fn, NamePos: pos}
+		}
 		return &ast.ExprStmt{X: &ast.CallExpr{
-			Fun:  &ast.SelectorExpr{X: &ast.Ident{Name: cs, NamePos: pos}, Sel: &ast.Ident{Name: "VerifYield"}},
-			Args: []ast.Expr{&ast.BasicLit{Kind: token.STRING, Value: `"gen.atomic"`}},
+			Fun:  fun,
+			Args: []ast.Expr{&ast.BasicLit{Kind: token.STRING, Value: fmt.Sprintf("%q", label)}},
 		}}
 	}
 	fix := func(list []ast.Stmt) []ast.Stmt {
